@@ -42,7 +42,7 @@ theorem encrypt_tie (P : Prims) {S : AgeModel.Stream.DstSpec} {ρ δ ω : Type} 
       match encryptInit P tape (rs.map E.recOf) E.hdrSegs (E.absD d) with
       | (.ok (w, k, t'), d2) =>
           res.1 = E.mkW k res.2.2.1 ∧ res.2.1 = none ∧ E.absD res.2.2.1 = d2 ∧ res.2.2.2 = t' ∧ w = AgeModel.Stream.Writer.new d2
-      | (.error e, d2) => GoTie.encErrRel E.eRand e res.2.1 ∧ E.absD res.2.2.1 = d2 :=
+      | (.error e, d2) => res.1 = E.nilW ∧ GoTie.encErrRel E.eRand e res.2.1 ∧ E.absD res.2.2.1 = d2 :=
   GoTie.encrypt_tie P E d rs tape
 
 /-- `age.wrapWithLabels`, translated: a recipient that does not implement `RecipientWithLabels`
@@ -59,13 +59,14 @@ theorem wrapWithLabels_tie {ρ : Type} (impl : ρ → Bool)
 
 `encrypt_tie` composed with `Props.C11.refusal_writes_nothing`: whenever the header cannot be built — no recipients, a
 random source that fails, a recipient that fails to wrap, recipients whose label sets differ — the TRANSLATED
-`age.Encrypt` reports an error and hands the destination back in the state it was given: not a byte was written. -/
+`age.Encrypt` reports an error, returns the NIL writer (nothing the caller could go on writing with) and hands the
+destination back in the state it was given: not a byte was written. -/
 
 theorem code_encrypt_refusal_writes_nothing (P : Prims) {S : AgeModel.Stream.DstSpec} {ρ δ ω : Type}
     (E : GoTie.EncryptEnv P S ρ δ ω) (d : δ) (rs : List ρ) (tape : Bytes) (e : EncErr)
     (h : encryptHeader P tape (rs.map E.recOf) = .error e) :
     ∃ res, Extracted.age_Encrypt E.nilW (GoTie.tapeRead E.eRand) E.W E.mac E.marshalF E.write E.newWriter E.key d rs tape = .ok res ∧
-      GoTie.encErrRel E.eRand e res.2.1 ∧ E.absD res.2.2.1 = E.absD d := by
+      res.1 = E.nilW ∧ GoTie.encErrRel E.eRand e res.2.1 ∧ E.absD res.2.2.1 = E.absD d := by
   obtain ⟨res, hrun, hres⟩ := encrypt_tie P E d rs tape
   rw [Props.C11.refusal_writes_nothing P tape (rs.map E.recOf) E.hdrSegs (E.absD d) e h] at hres
   exact ⟨res, hrun, hres⟩
@@ -75,9 +76,9 @@ theorem code_encrypt_incompatible (P : Prims) {S : AgeModel.Stream.DstSpec} {ρ 
     (E : GoTie.EncryptEnv P S ρ δ ω) (d : δ) (rs : List ρ) (tape : Bytes)
     (h : encryptHeader P tape (rs.map E.recOf) = .error .incompatible) :
     ∃ res, Extracted.age_Encrypt E.nilW (GoTie.tapeRead E.eRand) E.W E.mac E.marshalF E.write E.newWriter E.key d rs tape = .ok res ∧
-      res.2.1 = some ⟨"age.Encrypt", 2, []⟩ ∧ E.absD res.2.2.1 = E.absD d := by
-  obtain ⟨res, hrun, herr, habs⟩ := code_encrypt_refusal_writes_nothing P E d rs tape .incompatible h
-  exact ⟨res, hrun, herr, habs⟩
+      res.1 = E.nilW ∧ res.2.1 = some ⟨"age.Encrypt", 2, []⟩ ∧ E.absD res.2.2.1 = E.absD d := by
+  obtain ⟨res, hrun, hnil, herr, habs⟩ := code_encrypt_refusal_writes_nothing P E d rs tape .incompatible h
+  exact ⟨res, hrun, hnil, herr, habs⟩
 
 /-- **the assumption structures this file's theorems take are satisfiable** (for a lawful toy primitive suite
     with the 16-byte tag, where they mention primitives): none of the theorems above is vacuous. The instances are in
